@@ -562,15 +562,15 @@ class Interface(object):
                     c.resolve_namespace(c, ns)
 
                     child_ns = c.get_namespace()
-                    if child_ns == ns:
-                        if not self.has_class(c):
-                            self.add_class(c, add_parent=False)
-                            self.deps[c].add(cls)
-                    else:
-                        logger.debug("    not adding %r to %r because it would "
-                            "cause circular imports because %r extends %r and "
-                            "they don't have the same namespace", child_ns,
-                                     ns, c.get_type_name(), cls.get_type_name())
+                    if not self.has_class(c):
+                        self.add_class(c, add_parent=False)
+                        self.deps[c].add(cls)
+
+                        # it's the schema of the subclass that needs the one
+                        # of its parent, not the other way around.
+                        if child_ns != ns and self.is_valid_import(ns) and \
+                                         not ns in self.imports.get(child_ns, ()):
+                            self.imports[child_ns].add(ns)
 
     def is_valid_import(self, ns):
         """This will return False for base namespaces unless told otherwise."""
